@@ -69,17 +69,37 @@ def calleeOf (vm : Vm) : Option (Nat × Nat) :=
   | some (.func env fip) => some (env, fip)
   | _ => none
 
-def callOkB (md : Module) (vm : Vm) : Bool :=
+/-- the number of arguments the CALL at address `c` passes, read off the certificate: what lies between the frame record of the call
+(the innermost one in preparation: MARK at height `m`, record up to `m + 5`) and the function value on top; for a last call
+(no MARK: the running function's own parameter block is reused) the slots above `pp` -/
+def callArgs (md : Module) (hm : HMap) (c : Nat) : Nat :=
+  match hm[c]? with
+  | some (some st) =>
+    match st.marks with
+    | m :: _ => st.h - (m + 5) - 1
+    | [] => fnParamsAt md c + st.h - 1
+  | _ => 0
+
+def callOkB (md : Module) (hm : HMap) (vm : Vm) : Bool :=
   match calleeOf vm with
-  | some (_, fip) => fip == 0 || (decide (fip ∈ funcStarts md) && decide (vm.sp - 1 = vm.fp + (fnParamsAt md fip : Int)))
+  | some (_, fip) => fip == 0 || (decide (fip ∈ funcStarts md) && fnParamsAt md fip == callArgs md hm vm.ip)
   | none => true
 
+/-- the cell the allocator hands out next is a free cell inside the heap (or the heap is exhausted: the allocation then fails) -/
+def allocFreshB (vm : Vm) : Bool :=
+  vm.gc.free == 0 || (decide (vm.gc.free < vm.gc.mem.size) && (vm.gc.mem.objAt vm.gc.free).isNone)
+
+/-- the decidable per-step check run on every replayed step (Driver/VmDrv.lean).  Its first and last conjunct re-validate on the
+run what Props/C07 PROVES of verified modules (no word of a live frame record is overwritten; MK_INIT_ARRAY finds the constants of
+the `INT`s before it); the middle ones are the side conditions `StepOk` of `verify_sound_partial` that remain assumptions: the
+function value at a CALL has the right arity, a RET finds a live record, the allocator hands an `INT` a free cell. -/
 def stepOkB (md : Module) (hm : HMap) (vm vm' : Vm) (recs : List Rec) : Bool :=
   (recs.all fun r => !(decide (r ∈ ghostNext md vm recs)) ||
     (slot vm' (r.F - 4) == slot vm (r.F - 4) && slot vm' (r.F - 1) == slot vm (r.F - 1) && slot vm' r.F == slot vm r.F)) &&
   (match md.code[vm.ip]? with
    | some i =>
-     (i.op != .CALL || callOkB md vm) && (!(i.op == .RET || i.op == .RETHROW) || !recs.isEmpty) &&
+     (i.op != .CALL || callOkB md hm vm) && (!(i.op == .RET || i.op == .RETHROW) || !recs.isEmpty) &&
+     (i.op != .INT || allocFreshB vm) &&
      (i.op != .MK_INIT_ARRAY || (match hm[vm.ip]? with | some (some st) => stackInts vm i.w0 vm.sp == initExts st i.w0 | _ => true))
    | none => true)
 
